@@ -1,4 +1,6 @@
 import MioModel.Lemmas.Decoder
+import MioModel.Lemmas.Net
+import MioModel.Props.C03
 /-! # C17 — A misbehaving peer cannot crash, wedge or confuse the node (decoder part)
 
 The FramedTcp receive path hands every byte a peer writes, in whatever chunking the kernel
@@ -55,5 +57,129 @@ example : feed [] [[0x80], [0x00, 1, 2, 3]] = some ([3], [[], [2]]) := by decide
 example : feed [] [List.replicate 11 0xff, [1]] = some (List.replicate 11 0xff, []) := by decide
 example : decodeVar (List.replicate 11 0xff) = none ∧ maxEncodedSize ≤ (List.replicate 11 (0xff : UInt8)).length := by
   decide
+
+/-! ## network level (M5): what a peer does to its own connection stays on that connection -/
+open Mio.Net
+
+/-- is `a` a step of `process(id, _)` on a remote resource? -/
+def isProcAct : Act → Bool
+  | .pending _ | .checkReady | .beginReceive _ _ | .deliver | .endReceive | .finish => true
+  | _ => false
+
+/-- Non-interference: a processor step working on connection `id` — whatever the adapter answers
+(handshake failure, any number of messages, disconnection, reset) — changes the registration of no
+other connection, the `ready` flag of no other connection, and reports events about `id` only. -/
+theorem process_frame (s s' : St) (a : Act) (id : Nat) (hp : procHolds s.proc = some id)
+    (ha : isProcAct a = true) (hs : step s a = some s') :
+    (∀ x, x ≠ id → (x ∈ s'.live ↔ x ∈ s.live)) ∧
+    (∃ evs, s'.log = s.log ++ evs ∧ ∀ e ∈ evs, e.rid = some id) ∧
+    (∀ r ∈ s.regs, r.id ≠ id → r ∈ s'.regs) := by
+  have dl : ∀ w, ∀ x, x ≠ id → (x ∈ (deregister s id w).2.live ↔ x ∈ s.live) := by
+    intro w x hx
+    rw [(deregister_live s id w).1]
+    simp [List.mem_filter, hx]
+  cases a with
+  | pending ans =>
+    simp only [step] at hs
+    split at hs
+    · rename_i id0 read hproc
+      have hid : id0 = id := by simpa [procHolds, hproc] using hp
+      subst hid
+      split at hs
+      · rename_i r0 hfind
+        split at hs
+        · simp at hs
+        · cases ans with
+          | ready =>
+            simp only [Option.some.injEq] at hs; subst hs
+            refine ⟨fun x _ => Iff.rfl, ⟨[_], rfl, ?_⟩, ?_⟩
+            · intro e he; simp only [List.mem_singleton] at he; subst he
+              cases r0.listener <;> rfl
+            · intro r hr hne
+              simp only [emit, setReady]
+              exact List.mem_map.mpr ⟨r, hr, by simp [hne]⟩
+          | incomplete =>
+            simp only [Option.some.injEq] at hs; subst hs
+            exact ⟨fun x _ => Iff.rfl, ⟨[], by simp, by simp⟩, fun r hr _ => hr⟩
+          | disconnected =>
+            simp only [Option.some.injEq] at hs; subst hs
+            obtain ⟨d1, d2, d3, d4, d5, d6, d7⟩ := deregister_live s id0 .procPending
+            cases hl : r0.listener with
+            | none =>
+              simp only [hl]
+              refine ⟨fun x hx => by simpa [emit] using dl .procPending x hx, ⟨[.connected id0 false], by simp [emit, d3], ?_⟩, ?_⟩
+              · intro e he; simp only [List.mem_singleton] at he; subst he; rfl
+              · intro r hr _; simpa [emit, d2] using hr
+            | some l =>
+              simp only [hl]
+              exact ⟨fun x hx => by simpa using dl .procPending x hx, ⟨[], by simp [d3], by simp⟩,
+                fun r hr _ => by simpa [d2] using hr⟩
+      · simp at hs
+    · simp at hs
+  | checkReady =>
+    simp only [step] at hs
+    split at hs
+    · split at hs
+      · split at hs
+        · simp only [Option.some.injEq] at hs; subst hs
+          exact ⟨fun x _ => Iff.rfl, ⟨[], by simp, by simp⟩, fun r hr _ => hr⟩
+        · simp at hs
+      · simp at hs
+    · simp at hs
+  | beginReceive n disc =>
+    simp only [step] at hs
+    split at hs
+    · split at hs
+      · split at hs
+        · split at hs <;> (simp only [Option.some.injEq] at hs; subst hs
+                           exact ⟨fun x _ => Iff.rfl, ⟨[], by simp, by simp⟩, fun r hr _ => hr⟩)
+        · split at hs
+          · simp only [Option.some.injEq] at hs; subst hs
+            exact ⟨fun x _ => Iff.rfl, ⟨[], by simp, by simp⟩, fun r hr _ => hr⟩
+          · simp at hs
+      · simp at hs
+    · simp at hs
+  | deliver =>
+    simp only [step] at hs
+    split at hs
+    · rename_i id0 left disc hproc
+      have hid : id0 = id := by simpa [procHolds, hproc] using hp
+      subst hid
+      simp only [Option.some.injEq] at hs; subst hs
+      exact ⟨fun x _ => Iff.rfl, ⟨[.message id0], rfl, by intro e he; simp only [List.mem_singleton] at he; subst he; rfl⟩,
+        fun r hr _ => hr⟩
+    · simp at hs
+  | endReceive =>
+    simp only [step] at hs
+    split at hs
+    · simp only [Option.some.injEq] at hs; subst hs
+      exact ⟨fun x _ => Iff.rfl, ⟨[], by simp, by simp⟩, fun r hr _ => hr⟩
+    · simp at hs
+  | finish =>
+    simp only [step] at hs
+    split at hs
+    · rename_i id0 disc hproc
+      have hid : id0 = id := by simpa [procHolds, hproc] using hp
+      subst hid
+      split at hs
+      · obtain ⟨d1, d2, d3, d4, d5, d6, d7⟩ := deregister_live s id0 .procRead
+        by_cases hok : (deregister s id0 Who.procRead).1 = true
+        · simp only [hok, if_true, Option.some.injEq] at hs; subst hs
+          refine ⟨fun x hx => by simpa [emit] using dl .procRead x hx, ⟨[.disconnected id0], by simp [emit, d3], ?_⟩, ?_⟩
+          · intro e he; simp only [List.mem_singleton] at he; subst he; rfl
+          · intro r hr _; simpa [emit, d2] using hr
+        · simp only [hok, Bool.false_eq_true, if_false, Option.some.injEq] at hs; subst hs
+          exact ⟨fun x hx => by simpa using dl .procRead x hx, ⟨[], by simp [d3], by simp⟩,
+            fun r hr _ => by simpa [d2] using hr⟩
+      · simp only [Option.some.injEq] at hs; subst hs
+        exact ⟨fun x _ => Iff.rfl, ⟨[], by simp, by simp⟩, fun r hr _ => hr⟩
+    · simp at hs
+  | _ => simp [isProcAct] at ha
+
+/-- a failed inbound handshake produces no event at all, and a failed outbound one only
+`Connected(.., false)` (C03): no event ever names a connection that was never established -/
+theorem failed_handshake_isolated (s : St) (h : Net.Reachable s) (r : Reg) (hr : r ∈ s.regs)
+    (hacc : r.listener ≠ none) (hnr : r.ready = false) : proj r.id s.log = [] :=
+  C03.failed_inbound_silent s h r hr hacc hnr
 
 end Mio.C17
